@@ -33,6 +33,13 @@ const AE: &[(&str, &str)] = &[
     ("gzip-q001", "gzip;q=0.001"),
     ("garbage", "gzip;q=2"),
     ("empty", ""),
+    // the same values in another letter case (content-coding names are case-insensitive in the
+    // RFC; whatever should_gzip decides for them is the reference here)
+    ("GZIP-upper", "GZIP"),
+    ("gzip-higher-mixed-case", "Identity;q=0.5, Gzip;q=1.0"),
+    ("gzip-lower-mixed-case", "IDENTITY;q=1.0, GZIP;q=0.5"),
+    ("gzip-deflate-br-upper", "GZIP, DEFLATE, BR"),
+    ("gzip-spaces", " gzip ; q=1.0 , identity ; q=0.5 "),
 ];
 
 struct Cfg {
@@ -60,7 +67,7 @@ fn gen_cfg(t: &mut Tape, focus: &str) -> Cfg {
         6 => 65536,
         7 => 1 + t.draw(64) as usize,
         8 => 1 + t.draw(1000) as usize,
-        _ => 16,
+        _ => crate::dict::pick_in(t.draw(1 << 16), 1, 1 << 17).unwrap_or(16) as usize,
     };
     let (ae, ae_present, level) = match focus {
         "C08" => {
@@ -248,7 +255,7 @@ impl Sim {
     }
 
     fn poll_until_pending(&mut self) {
-        for _ in 0..100_000 {
+        for _ in 0..2_000_000 {
             match self.poll() {
                 Some(Step::Data(_)) => continue,
                 _ => break,
@@ -338,6 +345,28 @@ pub fn run(ctx: &mut Ctx) -> Result<RunOut, Violation> {
     let focus = ctx.focus;
     if focus == "C11" && ctx.tape.chance(1, 10) {
         return run_release(ctx);
+    }
+    if matches!(focus, "C08" | "C11") && ctx.tape.chance(1, if crate::core::deep() { 4000 } else { 1500 }) {
+        return run_big_backlog(ctx);
+    }
+    // Fixed warm-up build (any per-thread memory of the negotiation starts from a known value),
+    // then, half of the time, a complete earlier response on this thread with its own drawn
+    // configuration: state carried from an earlier call is part of the history.
+    {
+        let warm = Cfg { chunk: 16, level: 6, earlier_levels: Vec::new(), earlier_chunks: Vec::new(), ae: 9, ae_present: true, method: "GET", as_parts: false, payload: 0, seed: 0 };
+        let _ = catch(|| drop(build(&warm)));
+    }
+    if ctx.tape.chance(1, 2) {
+        let pre = gen_cfg(&mut ctx.tape, "C17");
+        let _ = catch(|| {
+            let (resp, w, _) = build(&pre);
+            if let Some(mut w) = w {
+                let _ = w.write_all(b"earlier response on this thread");
+                drop(w);
+            }
+            drop(resp);
+        });
+        ctx.stats.bump("prelude_builds");
     }
     let cfg = gen_cfg(&mut ctx.tape, focus);
     let built = catch(|| build(&cfg));
@@ -495,14 +524,17 @@ pub fn run(ctx: &mut Ctx) -> Result<RunOut, Violation> {
                 // write(n), n in 0..3*chunk (bounded so that payloads stay small)
                 let cap = sim.cfg.chunk;
                 let nk = t.draw(6);
-                let n = match nk {
+                let dict_n = if t.chance(1, 8) { crate::dict::pick_in(t.draw(1 << 16), 1, (cap as u64 * 300).clamp(4096, 200_000)).map(|v| v as usize) } else { None };
+                // (gzip output of a tiny chunk size stays bounded too: at most ~300 frames per write)
+                let dict_chunks = if cap <= 4096 && t.chance(1, 10) { crate::dict::pick_in(t.draw(1 << 16), 2, (200_000 / cap) as u64).map(|v| v as usize * cap) } else { None };
+                let n = if let Some(v) = dict_n.or(dict_chunks) { v } else { match nk {
                     0 => 0,
                     1 => 1,
                     2 => cap,
                     3 => cap.saturating_sub(1),
                     4 => cap + 1,
                     _ => t.draw((3 * cap).min(200_000) as u32 + 1) as usize,
-                };
+                } };
                 kinds.push(["w0", "w1", "wc", "wc-1", "wc+1", "w*"][nk as usize]);
                 let live = !sim.aborted && !sim.writer_dead && !sim.body_gone;
                 let after_drop = sim.body_gone;
@@ -961,3 +993,97 @@ fn run_release(ctx: &mut Ctx) -> Result<RunOut, Violation> {
 
 #[allow(dead_code)]
 fn _unused(_: &mut Tape) {}
+
+/// A producer far ahead of a stalled consumer: megabytes queued (up to just beyond any large
+/// threshold found in the source dictionary) before the first poll. Writes to a live body must
+/// keep being accepted (C08); an abort afterwards must still surface as an error (C11).
+fn run_big_backlog(ctx: &mut Ctx) -> Result<RunOut, Violation> {
+    let focus = focus_static(ctx.focus);
+    let t = &mut ctx.tape;
+    let threshold = crate::dict::pick_in(t.draw(1 << 16), 1 << 20, 96 << 20).unwrap_or(3 << 20) as usize;
+    let chunk = [65536usize, 4096, 1 << 20][t.draw(3) as usize];
+    let piece = [1usize << 20, 65536, (1 << 20) + 1][t.draw(3) as usize];
+    let total = threshold + 2 * chunk + t.draw(4096) as usize;
+    let end_with_abort = focus == "C11";
+    let seed = t.draw(u32::MAX) as u64;
+    let cfg = Cfg { chunk, level: 0, earlier_levels: Vec::new(), earlier_chunks: Vec::new(), ae: 0, ae_present: false, method: "GET", as_parts: false, payload: 1, seed };
+    let desc = format!("backlog scenario: chunk={chunk}, {total} bytes written in {piece}-byte pieces before the first poll (threshold from the source dictionary: {threshold}), then {}", if end_with_abort { "abort" } else { "drop" });
+    ctx.ev("backlog", total as u64, chunk as u64);
+    let (resp, w, _) = build(&cfg);
+    let mut w = w.expect("GET has a writer");
+    let mut body: Pin<Box<SimBody>> = Box::pin(resp.into_body());
+    let src: Vec<u8> = (0..piece as u64).map(|i| payload_byte(1, seed, i)).collect();
+    let r = catch(|| -> Result<(usize, u64, bool, bool), String> {
+        let mut accepted = 0usize;
+        let mut sum_in = 0u64;
+        while accepted < total {
+            let n = piece.min(total - accepted);
+            match w.write(&src[..n]) {
+                Ok(0) => return Err(format!("write of {n} bytes to a live body accepted nothing after {accepted} bytes")),
+                Ok(k) => {
+                    for &b in &src[..k] {
+                        sum_in = sum_in.wrapping_mul(31).wrapping_add(b as u64);
+                    }
+                    accepted += k;
+                }
+                Err(e) => return Err(format!("write to a live body failed after {accepted} bytes had been accepted: {e}")),
+            }
+        }
+        if let Err(e) = w.flush() {
+            return Err(format!("flush on a live body failed after {accepted} bytes: {e}"));
+        }
+        if end_with_abort {
+            w.abort(SimError::Injected(11));
+        }
+        drop(w);
+        let (_f, waker) = new_waker();
+        let mut cx = Context::from_waker(&waker);
+        let mut got = 0usize;
+        let mut sum_out = 0u64;
+        let mut clean = false;
+        let mut failed = false;
+        loop {
+            match body.as_mut().poll_frame(&mut cx) {
+                Poll::Ready(Some(Ok(f))) => {
+                    let mut d = f.into_data().map_err(|_| "trailers".to_string())?;
+                    while d.has_remaining() {
+                        let c = d.chunk();
+                        for &b in c {
+                            sum_out = sum_out.wrapping_mul(31).wrapping_add(b as u64);
+                        }
+                        got += c.len();
+                        let l = c.len();
+                        d.advance(l);
+                    }
+                }
+                Poll::Ready(Some(Err(_))) => {
+                    failed = true;
+                    break;
+                }
+                Poll::Ready(None) => {
+                    clean = true;
+                    break;
+                }
+                Poll::Pending => break,
+            }
+        }
+        if !end_with_abort && (got != accepted || sum_in != sum_out) {
+            return Err(format!("{accepted} bytes accepted, {got} delivered (content checksum equal: {})", sum_in == sum_out));
+        }
+        Ok((accepted, got as u64, clean, failed))
+    });
+    match r {
+        Err(p) => violation(focus, "panic", format!("{p}; {desc}")),
+        Ok(Err(e)) => violation(focus, if focus == "C11" { "abort-preceded-by-spurious-failure" } else { "backlog" }, format!("{e}; {desc}")),
+        Ok(Ok((_acc, _got, clean, failed))) => {
+            if end_with_abort && (clean || !failed) {
+                return violation("C11", "abort-ended-cleanly", format!("after abort the body ended cleanly={clean}, error seen={failed}; {desc}"));
+            }
+            if !end_with_abort && !clean {
+                return violation("C08", "no-clean-end", desc);
+            }
+            ctx.stats.bump("b_big_backlog_scenarios");
+            Ok(RunOut { sig: mix(mix(0xB16, threshold as u64), chunk as u64 ^ piece as u64), nontrivial: true })
+        }
+    }
+}
